@@ -10,9 +10,10 @@ Menu == {Tx(TRUE, 1, <<Out("P2PKH", 5)>>, 1),
          Tx(FALSE, 2, <<Out("OpReturn", 2), Out("P2PKH", 3)>>, 2),
          Tx(FALSE, 1, <<Out("P2SH", 5)>>, 1),
          Tx(FALSE, 3, <<>>, 3),
-         Tx(FALSE, 1, <<Out("P2PK", 0)>>, 3)}
+         Tx(FALSE, 1, <<Out("P2PK", 0)>>, 3),
+         Tx(FALSE, 2, <<Out("P2PKH", 6)>>, 1)}          \* not a coinbase (two inputs) although its first output exceeds the reward
 MenuSmall == {Tx(TRUE, 1, <<Out("P2PKH", 5)>>, 1), Tx(TRUE, 1, <<Out("P2PK", 3), Out("OpReturn", 9)>>, 2),
-              Tx(FALSE, 2, <<Out("OpReturn", 2), Out("P2PKH", 3)>>, 2), Tx(FALSE, 1, <<Out("P2SH", 5)>>, 2)}
+              Tx(FALSE, 2, <<Out("OpReturn", 2), Out("P2PKH", 3)>>, 2), Tx(FALSE, 1, <<Out("P2SH", 5)>>, 2), Tx(FALSE, 2, <<Out("P2PKH", 6)>>, 1)}
 
 MInit == Init /\ fin = FALSE
 MAccBlock == UNCHANGED fin /\ \E b \in Blocks : AccBlock(b)
